@@ -39,6 +39,18 @@ def history(seed):
             rng.choice(calls)()
         except Exception:
             pass
+    if seed % 2 == 1:
+        # the same requests as in requests(), made before on objects of the same ADC variant that were built on ANOTHER ground
+        # state (first-order singles, RE partitioning): results cached for those objects must not leak
+        for kw in (dict(fos=True), dict(part="re")):
+            try:
+                op2, gs2, isr2, m2, pr2 = fresh(**kw)
+                isr2.overlap_precursor(2, "ph,ph", "ia,jb")
+                m2.isr_matrix_block(1, "ph,ph", "ia,jb")
+                gs2.amplitude(2, "ph", "ia") if kw.get("fos") else gs2.energy(2)
+                pr2.trans_moment_space(1, "ph", 1)
+            except Exception:
+                pass
 
 
 def requests():
